@@ -819,6 +819,45 @@ theorem adopted_denial_bounds_alias_lifetime (cfg : Cfg) (m : Option Int) (denia
       unfold calculateCacheTTL; simp [hno]
     omega
 
+/-- **An alias that adopts the NXDOMAIN of a subtree cut ends with the cut —
+no floor.** The cut hit binds the sub-query's tree to the cut's exact expiry
+(`boundRequestTo(ctx, entry.expires)`); the alias inherits that bound, and the
+denial-lifetime bound folded in afterwards (which is floored at 5 s) can only
+shorten it: the alias entry's hard expiry is at most the cut's expiry even when
+the cut has less than 5 s left. -/
+theorem alias_of_cut_ends_with_cut (cfg : Cfg) (m : Option Int) (cutExpires : Int) (denial : Msg)
+    (now stored ttl : Int) :
+    let inherited := (forkInherit m [boundCut none (some cutExpires)] true).1
+    let alias : Entry := { stored := stored, ttl := ttl,
+                           cut := boundCut inherited (some (adoptedDenialBound cfg denial now)) }
+    alias.hardUntil ≤ cutExpires := by
+  intro inherited alias
+  obtain ⟨r, hr, hle, _⟩ := adopted_denial_binds_alias m cutExpires
+  have hi : inherited = some r := by
+    show (forkInherit m [boundCut none (some cutExpires)] true).1 = some r
+    simpa [boundCut] using hr
+  have hc : ∃ c, alias.cut = some c ∧ c ≤ r := by
+    show ∃ c, boundCut inherited (some (adoptedDenialBound cfg denial now)) = some c ∧ c ≤ r
+    rw [hi]
+    unfold boundCut; simp only
+    split
+    · exact ⟨_, rfl, by omega⟩
+    · exact ⟨r, rfl, Int.le_refl _⟩
+  obtain ⟨c, hcut, hcr⟩ := hc
+  have := hardUntil_le_cut alias c hcut
+  omega
+
+/-- … and the cut that `WriteMsg` records again from such a reply (the proof
+with the TTL `t` it was shown with) expires no later than the cut it came from. -/
+theorem rerecorded_cut_within_source (maxTTL now expires : Int) (t soaMin : Nat) (recs : List ProofRR)
+    (cut : Option Int) (ttl : Int)
+    (hs : expiryServeTTL expires now = some t)
+    (hr : cutRecordTTL maxTTL now t soaMin recs cut = some ttl) :
+    now + ttl ≤ expires := by
+  have h1 := (cut_unfloored maxTTL now t soaMin recs cut ttl hr).2.2.1
+  have h2 := expiry_shown_le_remaining expires now t hs
+  omega
+
 /-- **One refresh per entry**: an entry whose refresh has been claimed does
 not claim another until the claim is released (`CacheEntry.prefetch`), and a
 claim is made only inside the prefetch window — at most `threshold` percent of
@@ -1069,6 +1108,12 @@ example : denialProofExpiry (10800 * S) 0 (600 * S) (some (3 * S)) [{ rr := { tt
 example : proofAdmit (10800 * S) 0 (7200 * S) (some (20 * S)) [{ rr := { ttl := 300, kind := .soa 300 } }] [{ rr := { ttl := 300 } }]
     = some (20 * S, 20 * S) := by decide
 example : cutRecordTTL (86400 * S) 0 600000 600000 [{ rr := { ttl := 600000 } }] none = some (86400 * S) := by decide
+
+-- a cut with 2 s left: the alias that adopts its NXDOMAIN at 6 s ends at 8 s, not at 6 s + 5 s
+example : ({ stored := 6 * S, ttl := 600 * S,
+             cut := boundCut (forkInherit (some (606 * S)) [boundCut none (some (8 * S))] true).1
+                      (some (adoptedDenialBound (exCfg 0) { ns := [{ ttl := 1, kind := .soa 300 }] } (6 * S))) } : Entry).hardUntil
+    = 8 * S := by decide
 
 -- an alias adopting a record-less NXDOMAIN at 7 s is bound to 12 s; one with an SOA (minimum 30) to 30 s
 example : adoptedDenialBound (exCfg 0) {} (7 * S) = 12 * S := by decide
